@@ -140,6 +140,10 @@ let () =
       Buffer.contents buf in
       (* the history is evaluated under two unrelated streams of iteration orders: the
          compared text must not depend on them (a difference is reported, never hidden) *)
+      if List.exists (fun tok -> tok.[0] = 'W' || tok.[0] = 'M') ops then
+        (* Tag with a descriptor that does not describe the stored content: outside the model *)
+        Printf.printf "%s UNJUDGED\n" id
+      else
       let o1 = eval (idnum * 7919 + 17) in
       let o2 = eval (idnum * 104729 + 3) in
       if o1 = o2 then Printf.printf "%s%s\n" id o1
@@ -159,10 +163,11 @@ let () =
                          te_data = nat_of_int (ios c) }
         | _ -> failwith "tar entry") ents in
       let outs = List.map (fun q ->
-        match tar_open clean tar (nat_of_int (ios q)) with
+        match tar_open clean true tar (nat_of_int (ios q)) with
         | FData c -> "D" ^ string_of_int (int_of_nat c)
         | FNotExist -> "N"
-        | FUnsupported -> "U") qs in
+        | FUnsupported -> "U"
+        | FBroken -> "X") qs in
       Printf.printf "%s %s\n" id (String.concat " " outs)
     | [] -> ()
     | _ -> Printf.printf "BADLINE %s\n" l)
